@@ -304,3 +304,91 @@ def canaries(H):
         want = H.sandwich(q, v)[1] + t[1].scale(2)
         return [H.judge_identity('canary:dualquat-translation-sign[0]', 'dq_transform', got[0], want, k.source(), norm=lambda p_: H.unit(p_, q), spheres=H.sph(q))]
     return [R.Case('canary:dualquat-translation-sign', [k], judge, canary=True)]
+
+
+# ---- ext/quaternion_exponential -------------------------------------------------------------------------------------------------------------------
+
+def exponential_cases(tier, H):
+    """exp / log / pow / sqrt of quaternions (ext/quaternion_exponential):
+      exp(q)   = (cos |u|, u sin |u| / |u|) for the vector part u, and the identity when |u| < epsilon
+      log(q)   = (log(|q|^2) / 2, u atan2(|u|, w) / |u|) for |u| >= epsilon; (log w, 0, 0, 0), (log -w, pi, 0, 0) for a real quaternion
+      pow      the real-number shortcut (pow(w, y), 0, 0, 0) may only be taken when the squared vector part is below epsilon^2 (a unit quaternion with vector part v has
+               pow(q, y) with vector part of length |sin(y theta)| ~ y |v|: dropping it is an error of that size);  sqrt(q) == pow(q, 1/2)
+    every result lane must be defined (no uninitialised component on any path)"""
+    from laneflow import spec as S
+    EXH = ('glm/glm.hpp', 'glm/gtc/quaternion.hpp', 'glm/ext/quaternion_exponential.hpp')
+    cfgs = {'xyzw': Cfg('qexp_xyzw', headers=EXH, defines=('GLM_ENABLE_EXPERIMENTAL',)), 'wxyz': Cfg('qexp_wxyz', headers=EXH, defines=('GLM_ENABLE_EXPERIMENTAL', 'GLM_FORCE_QUAT_DATA_WXYZ'))}
+    cs = []
+    for T in ('float', 'double'):
+        for lay, cfg in cfgs.items():
+            sc = G.scalar(T)
+            w = sc.elem * 8
+            qt = G.quat(T, wxyz=(lay == 'wxyz'))
+            tg = '%s,%s' % (sc.tag, lay)
+            eps = 2.0 ** -23 if w == 32 else 2.0 ** -52
+            q = {c: S.lane('q', qt, c) for c in 'wxyz'}
+            u = [q['x'], q['y'], q['z']]
+            lu = S.sqrt(S.dot(u, u))
+            zero, one = S.const(w, 0.0), S.const(w, 1.0)
+
+            def lanes_case(name, k, spec, qt=qt):
+                def body(ctx):
+                    lanes = L.out_lanes(ctx, k, qt)
+                    res = []
+                    pc = P.PCtx()
+                    for c in 'wxyz':
+                        t = lanes[c]
+                        oid = '%s[%s]' % (name, c)
+                        und = [x for x in tm.walk(t) if x.op == 'undef' or (x.op == 'in' and x.args[0] == 'o')]
+                        if und:
+                            res.append(R.ob(oid, 'q_exponential', R.REFUTED, 'the component is uninitialised on some path (a default-constructed quaternion is returned: its value is indeterminate unless GLM_FORCE_CTOR_INIT is defined): %s' % tm.show(t, 3),
+                                            where=R.where_of(ctx.fn(k), t), kernel=k.source()))
+                            continue
+                        st, detail = S.compare(t, spec[c].t, pc=pc, nan=False)
+                        res.append(R.ob(oid, 'q_exponential', st, detail, where=R.where_of(ctx.fn(k), t) if st != R.PROVED else None, kernel=k.source()))
+                    return res
+                return R.Case(name, [k], H.guard(name, [k], body))
+            ke = K('qexp_%s_%s' % (sc.tag, lay), [Par('o', qt, False), Par('q', qt)], '*o = exp(*q);', cfg)
+            small = lu.lt(eps)
+            sn = S.fn('sin', lu)
+            spec_e = {'w': S.sel(small, one, S.fn('cos', lu))}
+            for i, c in enumerate('xyz'):
+                spec_e[c] = S.sel(small, zero, sn * (u[i] / lu))
+            cs.append(lanes_case('exp(q)<%s>' % tg, ke, spec_e))
+            # pow: threshold of the real-number shortcut
+            kp = K('qpow_%s_%s' % (sc.tag, lay), [Par('o', qt, False), Par('q', qt), Par('y', sc)], '*o = pow(*q, *y);', cfg)
+
+            def jpow(ctx, kp=kp, tg=tg, qt=qt, eps=eps, q=q):
+                name = 'pow(q,y)<%s>' % tg
+                lanes = L.out_lanes(ctx, kp, qt)
+                pc = P.PCtx()
+                v2 = pc.fpoly(S.dot([q['x'], q['y'], q['z']], [q['x'], q['y'], q['z']]).t)
+                found = []
+                for c in 'xyz':
+                    for x in tm.walk(lanes[c]):
+                        if x.op == 'fcmp' and x.args[0] in ('olt', 'ole', 'ogt', 'oge', 'ult', 'ule', 'ugt', 'uge'):
+                            a_, b_ = x.args[1], x.args[2]
+                            for lhs, rhs in ((a_, b_), (b_, a_)):
+                                if rhs.op == 'const':
+                                    try:
+                                        if pc.fpoly(lhs) == v2:
+                                            found.append(tm.fval(rhs))
+                                    except (P.NonFinite, P.TooBig):
+                                        pass
+                if not found:
+                    return [R.ob(name + '.real_shortcut', 'q_exponential', R.UNDECIDED, 'no comparison of the squared vector part with a constant found', kernel=kp.source())]
+                thr = max(found)
+                ok = thr <= eps * eps
+                return [R.ob(name + '.real_shortcut', 'q_exponential', R.PROVED if ok else R.REFUTED,
+                             'the real-number shortcut is taken only for a squared vector part below %g (<= epsilon^2)' % thr if ok else
+                             'the real-number shortcut (pow(w, y), 0, 0, 0) is taken whenever x^2 + y^2 + z^2 < %g: a unit quaternion with a vector part of length up to %g loses its rotation (error about y times that length)' % (thr, thr ** 0.5),
+                             where=R.where_of(ctx.fn(kp), lanes['x']) if not ok else None, kernel=kp.source())]
+            cs.append(R.Case('pow(q,y)<%s>' % tg, [kp], H.guard('pow(q,y)<%s>' % tg, [kp], jpow)))
+            ks = K('qsqrt_%s_%s' % (sc.tag, lay), [Par('o', qt, False), Par('q', qt)], '*o = sqrt(*q);', cfg)
+            ks2 = K('qsqrt_ref_%s_%s' % (sc.tag, lay), [Par('o', qt, False), Par('q', qt)], '*o = pow(*q, %s(0.5));' % sc.cpp, cfg)
+
+            def jsq(ctx, ks=ks, ks2=ks2, tg=tg, qt=qt):
+                a, b = L.out_lanes(ctx, ks, qt), L.out_lanes(ctx, ks2, qt)
+                return [R.ob('sqrt(q)<%s>[%s]' % (tg, c), 'q_exponential', R.PROVED if a[c] is b[c] else R.UNDECIDED, 'sqrt(q) is pow(q, 1/2)' if a[c] is b[c] else 'terms differ', kernel=ks.source()) for c in 'wxyz']
+            cs.append(R.Case('sqrt(q)<%s>' % tg, [ks, ks2], H.guard('sqrt(q)<%s>' % tg, [ks, ks2], jsq)))
+    return cs
